@@ -13,9 +13,33 @@ use statime::config::{
 use statime::filters::KalmanConfiguration;
 use statime::observability::port::PortState as ObsState;
 use statime::port::{ForwardedTLV, ForwardedTLVProvider, InBmca, Port, PortAction, Running, TimestampContext};
-use statime::time::{Interval, Time};
+use statime::time::Interval;
 use statime::PtpInstance;
+#[cfg(feature = "linuxfwd")]
 use statime_linux::tlvforwarder::TlvForwarder;
+#[cfg(not(feature = "linuxfwd"))]
+pub use nofwd::TlvForwarder;
+
+#[cfg(not(feature = "linuxfwd"))]
+mod nofwd {
+    //! stand-in used only when the crate is built without the daemon's forwarder
+    use statime::port::{ForwardedTLV, ForwardedTLVProvider};
+    pub struct TlvForwarder;
+    impl TlvForwarder {
+        pub fn new() -> Self {
+            TlvForwarder
+        }
+        pub fn duplicate(&self) -> Self {
+            TlvForwarder
+        }
+        pub fn forward(&self, _t: ForwardedTLV<'static>) {}
+    }
+    impl ForwardedTLVProvider for TlvForwarder {
+        fn next_if_smaller(&mut self, _m: usize) -> Option<ForwardedTLV<'_>> {
+            None
+        }
+    }
+}
 use std::cell::{Cell, RefCell};
 use std::cmp::Reverse;
 use std::collections::{BTreeSet, BinaryHeap};
@@ -506,7 +530,23 @@ pub struct CallSummary {
     pub n_actions: u32,
 }
 
+/// What the daemon publishes for observation right after each BMCA run
+/// (`statime-linux/src/main.rs: run`), taken with the same getter calls.
+#[derive(Clone, Debug)]
+pub struct SnapshotParts {
+    pub node: usize,
+    pub at: Tt,
+    pub default_ds: statime::observability::default::DefaultDS,
+    pub current_ds: statime::observability::current::CurrentDS,
+    pub parent_ds: statime::observability::parent::ParentDS,
+    pub time_properties_ds: TimePropertiesDS,
+    pub path_trace_ds: statime::observability::PathTraceDS,
+    pub port_ds: Vec<statime::observability::port::PortDS>,
+}
+
 pub struct World {
+    pub keep_snapshots: bool,
+    pub snapshots: Vec<SnapshotParts>,
     pub time: Rc<SimTime>,
     queue: BinaryHeap<Reverse<QEntry>>,
     pub nodes: Vec<HostNode>,
@@ -540,6 +580,8 @@ impl World {
         lock_stats_reset();
         let _ = log_counts_take();
         World {
+            keep_snapshots: false,
+            snapshots: Vec::new(),
             time: Rc::new(SimTime { now: Cell::new(0), seq: Cell::new(0) }),
             queue: BinaryHeap::new(),
             nodes: Vec::new(),
@@ -1123,8 +1165,25 @@ impl World {
             let mut refs: Vec<&mut SPort<InBmca>> = in_bmca.iter_mut().map(|b| &mut **b).collect();
             node.inst.bmca(&mut refs);
         }
+        let snap = if self.keep_snapshots {
+            Some(SnapshotParts {
+                node: ni,
+                at: self.time.now.get(),
+                default_ds: node.inst.default_ds(),
+                current_ds: node.inst.current_ds(in_bmca.iter().filter_map(|v| v.port_current_ds_contribution()).next()),
+                parent_ds: node.inst.parent_ds(),
+                time_properties_ds: node.inst.time_properties_ds(),
+                path_trace_ds: node.inst.path_trace_ds(),
+                port_ds: in_bmca.iter().map(|v| v.port_ds()).collect(),
+            })
+        } else {
+            None
+        };
         for (hp, p) in node.ports.iter_mut().zip(in_bmca.into_iter()) {
             hp.slot = Slot::InBmca(p);
+        }
+        if let Some(s) = snap {
+            self.snapshots.push(s);
         }
         let n = node.ports.len();
         if self.monitors {
